@@ -126,6 +126,18 @@ int main(int argc, char **argv) {
       if (r) { ++bad; std::printf("{\"input_hex\":\"%s\",\"document\":true,\"violated\":\"a valid JSON document is rejected, crashes, or dump/Load is not idempotent\"}\n", hex(doc).c_str()); }
     }
   }
+  // --- integers: a plain digit string is an integer and keeps its exact value
+  {
+    const long long ints[] = {0, 7, -7, 2147483647LL, 2147483648LL, 999999999999999999LL, 1000000000000000000LL, 1234567890123456789LL, 9223372036854775807LL, -1234567890123456789LL};
+    for (long long v : ints) {
+      ++cases;
+      const std::string doc = std::to_string(v);
+      int r = in_child([&] {
+        try { JSON j = JSON::Load(doc); return (j.JSONType() == JSON::Class::Integral && j.to_int() == v) ? 0 : 1; } catch (...) { return 1; }
+      });
+      if (r) { ++bad; std::printf("{\"input_hex\":\"%s\",\"integer\":true,\"violated\":\"an integer text does not come back as that integer\"}\n", hex(doc).c_str()); }
+    }
+  }
   // --- string round trip
   {
     int r = in_child([&] {
